@@ -328,10 +328,14 @@ impl Variant {
             match round_left {
                 Self::VInteger(i_left) => match round_right {
                     Self::VInteger(i_right) => Ok(Self::VInteger(i_left % i_right)),
-                    Self::VLong(_) => Err(VariantError::Overflow),
+                    Self::VLong(l_right) => Ok((i_left as i64 % l_right).fit_to_type()),
                     _ => Err(VariantError::TypeMismatch),
                 },
-                Self::VLong(_) => Err(VariantError::Overflow),
+                Self::VLong(l_left) => match round_right {
+                    Self::VInteger(i_right) => Ok((l_left % i_right as i64).fit_to_type()),
+                    Self::VLong(l_right) => Ok((l_left % l_right).fit_to_type()),
+                    _ => Err(VariantError::TypeMismatch),
+                },
                 _ => Err(VariantError::TypeMismatch),
             }
         }
